@@ -34,7 +34,7 @@ inductive WPc where
   | recv                                                        -- worker.recv
   | present (c : PutCmd)                                        -- store.present (the worker-side re-check)
   | space0 (c : PutCmd)                                         -- wu.space, first read in maybe_add
-  | sampleInit (c : PutCmd) (space : Int)                       -- sample.init (after the incoming key's estimate)
+  | sampleInit (c : PutCmd) (space : Int) (incEst : Nat)        -- sample.init (the incoming key's estimate is already taken)
   | evRemove (c : PutCmd) (incEst : Nat) (sample : List SKey) (victim : SKey)   -- kw.remove of a victim
   | evSub (c : PutCmd) (incEst : Nat) (sample : List SKey) (id : Nat) (wk : WKey) -- wu.sub
   | evStore (c : PutCmd) (incEst : Nat) (sample : List SKey) (id : Nat) (wk : WKey) -- store.remove, holding WU
@@ -90,7 +90,6 @@ inductive CPc where
   | upTtlDelete (id : Nat) (e : Nat) (uw : Option Int)                                      -- ttl.delete
   | upTtlRemove (id : Nat) (old new : Nat) (uw : Option Int)                                -- ttl.update.remove
   | upTtlInsert (id : Nat) (new : Nat) (uw : Option Int)                                    -- ttl.update.insert
-  | upFinish (id : Nat) (uw : Option Int)                                                   -- after the index: assert + send or on-the-spot
   deriving Repr, Inhabited
 
 inductive Tid where
@@ -173,14 +172,13 @@ def workerAct (b : BState) (o : Oracle) : Except String (BState × Oracle) :=
     else
       let space := g.adm.max - g.adm.used
       if space ≥ c.w then .ok ({ b with w := .insert c }, o)
-      else .ok ({ b with w := .sampleInit c space }, o)
-  | .sampleInit c space =>
-    (match estimateO g.lfu c.hash o with
+      else match estimateO g.lfu c.hash o with     -- create_space: the incoming key's estimate, then on to the sample
+        | .error m => .error m
+        | .ok (incEst, o1) => .ok ({ b with w := .sampleInit c space incEst }, o1)
+  | .sampleInit c space incEst =>
+    (match fillSample g.lfu g.adm.kw (fillNeed g.cfg.sampleSize g.adm.kw []) [] o with
      | .error m => .error m
-     | .ok (incEst, o1) =>
-       match fillSample g.lfu g.adm.kw (fillNeed g.cfg.sampleSize g.adm.kw []) [] o1 with
-       | .error m => .error m
-       | .ok (sample, o2) => loopDecide b c incEst sample space o2)
+     | .ok (sample, o2) => loopDecide b c incEst sample space o2)
   | .evRemove c incEst sample victim =>
     (match g.adm.kw.get? victim.id with
      | some wk => .ok ({ b with g := { g with adm := { g.adm with kw := g.adm.kw.del victim.id } }, w := .evSub c incEst sample victim.id wk }, o)
@@ -312,6 +310,16 @@ def spotFinish (b : BState) (i : Nat) (st : Status) : BState :=
   let h := b.g.acks.length
   finishCall { b with g := { b.g with acks := b.g.acks ++ [st] } } i (.ack h st)
 
+/-- the tail of `put_or_update` after the expiry index is brought up to date (no schedule point in between):
+    the weight assert, then on to the send — or the on-the-spot answer -/
+def upAfterIndex (b : BState) (i : Nat) (id : Nat) (uw : Option Int) : BState :=
+  match uw with
+  | some weight =>
+    if !inI64 weight then finishCall b i (.panic .weightOverflow)
+    else if weight ≤ 0 then finishCall b i (.panic .weightNotPositive)
+    else setClient b i (.send (.updateWeight id weight))
+  | none => spotFinish b i .accepted
+
 /-- One action of client `i`. -/
 def clientAct (b : BState) (i : Nat) (o : Oracle) : Except String (BState × Oracle) :=
   let g := b.g
@@ -391,26 +399,19 @@ def clientAct (b : BState) (i : Nat) (o : Oracle) : Except String (BState × Ora
        | .added n => .ok (setClient b i (.upTtlPut id n (match uw with | some x => some x | none => some (existing + g.cfg.ttlEntry))), o)
        | .deleted e => .ok (setClient b i (.upTtlDelete id e (match uw with | some x => some x | none => some (existing - g.cfg.ttlEntry))), o)
        | .updated e n => .ok (setClient b i (.upTtlRemove id e n uw), o)
-       | .nothing => .ok (setClient b i (.upFinish id uw), o))
+       | .nothing => .ok (upAfterIndex b i id uw, o))
     | .upTtlPut id e uw =>
       if !ttlFree b (shardOf g.cfg e) then .error "not enabled: the expiry shard is locked"
-      else .ok (setClient { b with g := ttlPut g id e } i (.upFinish id uw), o)
+      else .ok (upAfterIndex { b with g := ttlPut g id e } i id uw, o)
     | .upTtlDelete id e uw =>
       if !ttlFree b (shardOf g.cfg e) then .error "not enabled: the expiry shard is locked"
-      else .ok (setClient { b with g := ttlDelete g id e } i (.upFinish id uw), o)
+      else .ok (upAfterIndex { b with g := ttlDelete g id e } i id uw, o)
     | .upTtlRemove id old new uw =>
       if !ttlFree b (shardOf g.cfg old) then .error "not enabled: the expiry shard is locked"
       else .ok (setClient { b with g := ttlDelete g id old } i (.upTtlInsert id new uw), o)
     | .upTtlInsert id new uw =>
       if !ttlFree b (shardOf g.cfg new) then .error "not enabled: the expiry shard is locked"
-      else .ok (setClient { b with g := ttlPut g id new } i (.upFinish id uw), o)
-    | .upFinish id uw =>
-      (match uw with
-       | some weight =>
-         if !inI64 weight then .ok (finishCall b i (.panic .weightOverflow), o)
-         else if weight ≤ 0 then .ok (finishCall b i (.panic .weightNotPositive), o)
-         else (match sendAct b i (.updateWeight id weight) with | .ok b' => .ok (b', o) | .error m => .error m)
-       | none => .ok (spotFinish b i .accepted, o))
+      else .ok (upAfterIndex { b with g := ttlPut g id new } i id uw, o)
 
 /-- a client issues a request (enabled only when idle) -/
 def issue (b : BState) (i : Nat) (r : Req) : Except String BState :=
